@@ -26,6 +26,9 @@
 (* nevertheless always stays an upper bound of all weights, which is what  *)
 (* rejection sampling needs (invariants UpperBound, SelectionExact).       *)
 (*                                                                         *)
+(* Comments of the form @cov:<name> mark branches whose TLC coverage count  *)
+(* the check reads to rule out a vacuous run.                              *)
+(*                                                                         *)
 (* Only the calls the simulators make are in the alphabet: insert with     *)
 (* weight >= 0, update with increment >= 0 (None in the unweighted class), *)
 (* remove of a present item, update_total_weight, random_removal /         *)
@@ -106,8 +109,12 @@ RemoveM(s, choice) ==
         items1   == SubSeq(s.items, 1, n - 1)                         \* 313
         moved    == position # Len(items1)                            \* 314
         bad      == moved /\ ~(position + 1 \in 1 .. Len(items1))     \* 315 would raise IndexError
-        items2   == IF moved /\ ~bad THEN [items1 EXCEPT ![position + 1] = lastItem] ELSE items1  \* 315
-        pos2     == IF moved /\ ~bad THEN Put(pos1, lastItem, position) ELSE pos1                \* 316
+        items2   == IF moved /\ ~bad
+                    THEN [items1 EXCEPT ![position + 1] = lastItem]   \* 315  @cov:move-last
+                    ELSE items1
+        pos2     == IF moved /\ ~bad
+                    THEN Put(pos1, lastItem, position)                \* 316
+                    ELSE pos1
         s1       == [s EXCEPT !.items = items2, !.pos = pos2]
     IN IF bad THEN Raise(s1, "IndexError")
        ELSE IF ~Weighted THEN s1                                      \* 318
@@ -119,7 +126,7 @@ RemoveM(s, choice) ==
        IN IF w = s2.maxw                                              \* 321
           THEN LET s3 == [s2 EXCEPT !.maxcnt = s2.maxcnt - 1]         \* 326
                IN IF s3.maxcnt = 0 /\ Len(s3.items) > 0               \* 327
-                  THEN UpdateMaxWeight(s3)                            \* 328
+                  THEN UpdateMaxWeight(s3)                            \* 328  @cov:recount
                   ELSE s3
           ELSE s2
 
@@ -133,13 +140,13 @@ UpdateM(s, item, inc) ==
                       a  == [s EXCEPT !.weight = Put(s.weight, item, nw),  \* 289
                                       !.total  = s.total + inc]       \* 290
                   IN IF nw > a.maxw                                   \* 291
-                     THEN [a EXCEPT !.maxcnt = 1, !.maxw = nw]        \* 292-293
+                     THEN [a EXCEPT !.maxcnt = 1, !.maxw = nw]        \* 292-293  @cov:new-max
                      ELSE IF nw = a.maxw                              \* 294
-                     THEN [a EXCEPT !.maxcnt = a.maxcnt + 1]          \* 295
+                     THEN [a EXCEPT !.maxcnt = a.maxcnt + 1]          \* 295  @cov:tie-max
                      ELSE a
              ELSE \* "it's a negative increment and was at max"; reached with inc = 0
                   LET nw == W(s, item) + inc
-                      a  == [s EXCEPT !.maxcnt = s.maxcnt - 1 - 1,    \* 297 and 300
+                      a  == [s EXCEPT !.maxcnt = s.maxcnt - 1 - 1,    \* 297 and 300  @cov:zero-inc-at-max
                                       !.weight = Put(s.weight, item, nw),   \* 298
                                       !.total  = s.total + inc]       \* 299
                   IN a   \* 301-302: `self._update_max_weight' is referenced, not called: no effect
@@ -263,6 +270,8 @@ ZeroNeverSelected == \A x \in Item : Ref!SelNum(x) = 0 => SelNumI(Obj, x) = 0
 
 -----------------------------------------------------------------------------
 (* Emission for the conformance harness: one shortest history per distinct  *)
-(* implementation state (INVARIANT, VIEW ViewNoK, one worker)               *)
-EmitHist == PrintT(<<"H", hist>>)
+(* implementation state (INVARIANT, VIEW ViewNoK, one worker), together    *)
+(* with the implementation-level values, which the harness compares with    *)
+(* the private attributes of the real object for information only           *)
+EmitHist == PrintT(<<"H", hist, items, total, maxw, maxcnt>>)
 =============================================================================
